@@ -21,6 +21,8 @@ import Reamber.Lemmas.SMScan
 import Reamber.Props.C10
 import Reamber.Lemmas.TimingInverse
 import Reamber.Lemmas.SMText
+import Reamber.Lemmas.SMPairInv
+import Reamber.Lemmas.SMWriteEvents
 import Reamber.Lemmas.Snapper
 import Mathlib.Tactic.NormNum
 import Reamber.Generated.SMTables
@@ -442,6 +444,74 @@ theorem string_line_roundtrip (ta : Str × Str) (hta : ta ∈ stringTags) (v : S
   have hct : commentTrick ta.1 = ta.1 := by simp [commentTrick, h3]
   simp only [hct, h5, bind, Except.bind, hs]
 
+/-- **`pairing_inverse`.**  For any notes whose holds/rolls have `beat < endBeat` and do not overlap (nor touch) within
+a column: their events (a tap symbol per tap, a head and a tail symbol per hold/roll) in strictly ascending
+(beat, column) order — the order in which a written chart is read — are paired by the StepMania rule into exactly
+those notes: no unmatched tail, no head over an open head, none left open. -/
+theorem pairing_inverse (evs : List SEv) (N : List DNote) (hsort : evs.Pairwise ltEv)
+    (hperm : evs.Perm (N.flatMap evOf)) (hlen : ∀ n ∈ N, ∀ e, n.endBeat = some e → n.beat < e)
+    (hno : N.Pairwise NoOverlap) :
+    (pairAll evs).ok = true ∧ (pairAll evs).opened = [] ∧ (pairAll evs).notes.Perm N :=
+  SM.pairing_inverse evs N hsort hperm hlen hno
+
+example :
+    let N : List DNote := [⟨.hold, 0, 0, some 2⟩, ⟨.mine, 0, 1, none⟩, ⟨.roll, 0, 3, some 4⟩, ⟨.hit, 1, 0, none⟩]
+    let evs : List SEv := [(0, 0, .head .hold), (1, 0, .tap .hit), (0, 1, .tap .mine), (0, 2, .tail), (0, 3, .head .roll), (0, 4, .tail)]
+    (pairAll evs).ok = true ∧ (pairAll evs).opened = [] ∧ (pairAll evs).notes.length = 4 := by decide +kernel
+
+/-- **Reading order**: the events of any chart text (`4m + 4r/R`, symbols with columns) are in strictly ascending
+(beat, column) order. -/
+theorem events_sorted (ms : List (List Str)) : (events ms).Pairwise ltEv := SM.events_sorted ms
+
+/-- **The written measures, by index** (`prev_measure` padding): entry `i` of the output is the filled grid of measure
+`prev + 1 + i` when that measure holds an object, the padding measure otherwise; nothing else is emitted. -/
+theorem writeLoop_index (keys : Nat) (S : List Slot) (ms : List Int) (prev : Int) (out : List (List Str))
+    (hasc : AscAbove prev ms) (hw : writeLoop keys S prev ms = .ok out) :
+    (out.length : Int) = (ms.getLast?.getD prev) - prev ∧
+    ∀ (i : Nat) (hi : i < out.length),
+      (prev + 1 + (i : Int) ∈ ms →
+        fillMeasure keys (S.filter (fun s => s.measure = prev + 1 + (i : Int))) = .ok out[i]) ∧
+      (prev + 1 + (i : Int) ∉ ms → out[i] = paddingMeasure) :=
+  SM.writeLoop_index keys S ms prev out hasc hw
+
+/-- **The written chart holds exactly the events of its objects** (`EventsOK`: valid symbols, non-negative beats,
+columns below the key count, no two object events in one (column, beat), every denominator divides its measure's
+row count): reading the emitted measures by the StepMania rules gives `(c, b, s)` iff it is one of the object events. -/
+theorem written_events (keys : Nat) (E : List SEv) (hE : EventsOK keys E) (ms : List Int) (out : List (List Str))
+    (hasc : AscAbove (-1) ms) (hmem : ∀ m, m ∈ ms ↔ ∃ s ∈ E.map slotOfEv, s.measure = m)
+    (hw : writeLoop keys (E.map slotOfEv) (-1) ms = .ok out) :
+    ∀ c b sym, (c, b, sym) ∈ events out ↔ (c, b, sym) ∈ E :=
+  SM.written_events keys E hE ms out hasc hmem hw
+
+/-- **`write_read_chart` — one chart, rows level.**  Let `N` be the chart's notes in beats (taps; holds/rolls with
+`beat < endBeat` that do not overlap within a column) and `E` their events in the order the writer lists them (any
+permutation of `N.flatMap evOf`), satisfying `EventsOK` (in particular exact rows: per-measure LCM within 384, and no
+two events in one (column, beat)).  Then the measures `SMMap.write`'s loop emits for the slots of `E`, read by the
+StepMania rules (`events`, `pairAll`), are well-bracketed and denote exactly the notes `N` — same kinds, columns, beats
+and end beats, as a multiset. -/
+theorem write_read_chart (keys : Nat) (N : List DNote) (E : List SEv) (hEN : E.Perm (N.flatMap evOf))
+    (hE : EventsOK keys E) (ms : List Int) (out : List (List Str))
+    (hasc : AscAbove (-1) ms) (hmem : ∀ m, m ∈ ms ↔ ∃ s ∈ E.map slotOfEv, s.measure = m)
+    (hw : writeLoop keys (E.map slotOfEv) (-1) ms = .ok out)
+    (hlen : ∀ n ∈ N, ∀ e, n.endBeat = some e → n.beat < e) (hno : N.Pairwise NoOverlap) :
+    (pairAll (events out)).ok = true ∧ (pairAll (events out)).opened = [] ∧ (pairAll (events out)).notes.Perm N := by
+  have hsorted := SM.events_sorted out
+  have hnd1 : (events out).Nodup := by
+    refine hsorted.imp ?_
+    intro a b hab heq
+    subst heq
+    simp only [ltEv] at hab
+    rcases hab with h | ⟨_, h⟩
+    · exact absurd h (lt_irrefl _)
+    · exact absurd h (lt_irrefl _)
+  have hnd2 : E.Nodup := List.Nodup.of_map _ hE.no_collision
+  have hperm : (events out).Perm E := by
+    rw [List.perm_ext_iff_of_nodup hnd1 hnd2]
+    intro e
+    obtain ⟨c, b, sym⟩ := e
+    exact SM.written_events keys E hE ms out hasc hmem hw c b sym
+  exact SM.pairing_inverse (events out) N hsorted (hperm.trans hEN) hlen hno
+
 /-- **`write_read_exact_partial` — one object, end to end in time.**  Let the written `#OFFSET`/`#BPMS` denote `t0` and
 a tempo list `cs` in C10's domain with the 4-beat metronome (`changesOf_written_measure_lines` for measure-line
 tempos).  For an object at time `t ≥ t0` whose slotted beat is `beatAt t0 cs t` (`written_beats_exact`), in a
@@ -466,15 +536,18 @@ Proved chain: `written_beats_exact` (slotted beat = `beatAt t`) → `slot_beat_e
 `cells_no_collision` / `last_write_wins` (the symbol is in that cell) → `scanRows_renderRows` (the text scans back to the
 rows) → `changesOf_written_measure_lines` (the written `#BPMS` denote the tempo list) → `written_time_exact` (the
 StepMania time of that beat is `t`); `string_line_roundtrip`, `selectable_roundtrip` for the header.
-NOT proved, so the single statement is not assembled:
-* `pairing_inverse`: for holds/rolls that do not overlap within a column, the head and tail symbols written in beat
-  order are paired again by `pairAll` into exactly those holds/rolls (needs an induction over the beat-sorted event
-  stream with the set of open longs as invariant);
-* that the symbols of a measure's grid, read row by row (`events`), are the cells of `cells_no_collision` in beat order
-  (a statement about `zipIdx`/`cellAt` on rectangular grids);
-* the numeric header lines (`#OFFSET`, `#SAMPLESTART`, `#SAMPLELENGTH`, `#BPMS` bpm values) as text — they depend on
-  Python's float `repr`, a parameter of the model (DESIGN K3);
-* the bookkeeping that threads these through `SM.write` / `denote` for several charts.
+Main assembled result: `write_read_chart` (one chart, rows level: the emitted measures denote exactly the notes, in
+beats) together with `write_read_exact_partial` (beats → milliseconds for each object).
+NOT proved (`write_read_exact` for the whole file stays `_partial`):
+* `measuresSorted_spec`: `measuresSorted S` is strictly ascending above −1 and contains exactly the measures of `S`
+  (the `hasc`/`hmem` hypotheses of `write_read_chart`; needs `List.eraseDups` on a sorted list);
+* `writeOrder_events`: the writer's nine concatenated lists `(time, column, char)`, with the beats of
+  `written_beats_exact`, are a permutation of the notes' events `N.flatMap evOf` (so `E` can be instantiated from a
+  `WChart`), and `symOf` of the `SMConst` characters (`symbols_tie`, C02);
+* the grid rows are `CleanRow`s, so that `scanRows_renderRows` applies to the emitted text, and the MSD layer of the
+  whole file (`msd (render file)` = the written values) for one and for several charts;
+* the numeric header lines (`#OFFSET`, `#SAMPLESTART`, `#SAMPLELENGTH`, bpm values): they depend on Python's float
+  `repr`; the assumption to be carried is `parseFloat (show q) = .ok q` for the renderer `show` (a parameter, as in C01).
 The check evaluates the whole composition on every case (S).
 -/
 
